@@ -261,6 +261,16 @@ func encAdmission(a *core.Admission) ([]byte, bool) {
 func genText(t *rapid.T, label string, maxLen int) string {
 	alpha := []rune(valueAlphabets[rapid.IntRange(0, len(valueAlphabets)-1).Draw(t, label+"-alpha")])
 	n := rapid.IntRange(1, maxLen).Draw(t, label+"-len")
+	if rapid.IntRange(0, 11).Draw(t, label+"-longtext") == 0 {
+		// long texts: around the DER length boundaries and RFC 5280's 200-character DisplayText bound (which gopki does not impose)
+		n = rapid.SampledFrom([]int{127, 128, 129, 199, 200, 201, 255, 256, 300, 1000}).Draw(t, label+"-longlen")
+		seed := rapid.SliceOfN(rapid.IntRange(0, len(alpha)-1), 1, 6).Draw(t, label+"-longseed")
+		rs := make([]rune, n)
+		for i := range rs {
+			rs[i] = alpha[(seed[i%len(seed)]+i/len(seed))%len(alpha)]
+		}
+		return string(rs)
+	}
 	rs := make([]rune, n)
 	for i := range rs {
 		rs[i] = alpha[rapid.IntRange(0, len(alpha)-1).Draw(t, label+"-ch")]
